@@ -5,8 +5,9 @@ From Coq.Strings Require Import Byte.
 Import ListNotations.
 From GA.Base Require Import Bytes Case Align.
 From GA.Gen Require Import Alpha Iupac.
-From GA.Model Require Import Stats.
-From GA.Proofs Require Import StatsProofs.
+From Coq Require Import Reals Permutation.
+From GA.Model Require Import Stats Entropy.
+From GA.Proofs Require Import StatsProofs EntropyProofs.
 
 (* case-folded counts: exactly the upper-cased characters that occur, each with its count *)
 Theorem C14_counts :
@@ -88,7 +89,26 @@ Theorem C14_count_is_list_protein :
 Proof. exact count_is_list_aa. Qed.
 Print Assumptions C14_count_is_list_protein.
 
-(* Entropy value and PSSM are not modelled in this revision (see DESIGN.md); the remaining statistics are
+(* ---- entropy of a site (over the reals, from the positive counts of the kinds of characters) ------- *)
+(* the value does not depend on the order in which the kinds are visited: an implementation that sums in
+   map-iteration order returns order-dependent roundings of ONE real number and must fix the order to be
+   deterministic (the repaired Entropy does) *)
+Theorem C14_entropy_order_independent :
+  forall l l', Permutation l l' -> entropy_of l = entropy_of l'.
+Proof. exact entropy_order_independent. Qed.
+Print Assumptions C14_entropy_order_independent.
+
+Theorem C14_entropy_nonneg :
+  forall l, Forall (fun c => (0 < c)%Z) l -> (0 <= entropy_of l)%R.
+Proof. exact entropy_nonneg. Qed.
+Print Assumptions C14_entropy_nonneg.
+
+Theorem C14_entropy_single_kind : forall c, (0 < c)%Z -> entropy_of [c] = 0%R.
+Proof. exact entropy_single. Qed.
+Print Assumptions C14_entropy_single_kind.
+
+(* Entropy values are certified per case against entropy_of by the interval tactic (Corr/C14Cert.v); PSSM is
+   not modelled in this revision (see DESIGN.md); the remaining statistics are
    tied to the code by the correspondence and judged against their naive definitions by Corr/C14.v
    spec_check. *)
 
